@@ -149,8 +149,10 @@ pub fn c12_process_case(ctx: &Ctx, env: &RealEnv, dir: &Path, case: u64, seed: u
     let w = crate::sim::World::new(dir.to_path_buf(), Project { manifest: "build.ninja".into(), ..Default::default() });
     let good = "rule r\n  command = true\nbuild out: r in\n";
     std::fs::write(dir.join("in"), "x").unwrap();
-    let kind = rng.below(8);
+    let kind = rng.below(11);
     let mut inv = RInv { j: Some(2), timeout_s: 30, ..Default::default() };
+    // for the depfile kinds: bytes the command copies into place as its depfile
+    let mut depfile: Option<Vec<u8>> = None;
     let mut manifest: Vec<u8> = good.as_bytes().to_vec();
     let mut expect_error = true;
     let what;
@@ -199,20 +201,66 @@ pub fn c12_process_case(ctx: &Ctx, env: &RealEnv, dir: &Path, case: u64, seed: u
             inv.targets.push(t);
             what = "target-string";
         }
-        _ => {
+        7 => {
             let n = rng.range(1, 80);
             let pool: &[u8] = b"abr$ {}:|=#\n\n  \t\0\r\xc3\xa9build rule ";
             manifest = (0..n).map(|_| *rng.pick(pool)).collect();
             expect_error = false;
             what = "raw-bytes";
         }
+        _ => {
+            // a successful command leaves a depfile behind: well-formed ones naming files that exist, do
+            // not exist, lie in missing directories or are directories; malformed and random ones
+            manifest = b"rule cc\n  command = cp dep.src out.d && touch out\n  depfile = out.d\nbuild out: cc in\n".to_vec();
+            std::fs::write(dir.join("hdr.h"), "h").unwrap();
+            std::fs::create_dir_all(dir.join("adir")).unwrap();
+            let names = ["hdr.h", "gone.h", "no/such/dir/x.h", "adir", "../outside.h", "in", "out", ".", "hdr.h/x", "é.h", "a b.h"];
+            let mut d: Vec<u8> = Vec::new();
+            match rng.below(4) {
+                0 | 1 => {
+                    d.extend_from_slice(b"out:");
+                    for _ in 0..rng.range(0, 4) {
+                        d.push(b' ');
+                        d.extend_from_slice(rng.pick(&names[..]).replace(' ', "\\ ").as_bytes());
+                        if rng.chance(1, 5) {
+                            d.extend_from_slice(b" \\\n ");
+                        }
+                    }
+                    if rng.chance(3, 4) {
+                        d.push(b'\n');
+                    }
+                }
+                2 => {
+                    // several targets, odd spacing
+                    for t in 0..rng.range(1, 3) {
+                        d.extend_from_slice(format!("t{} :  {}  {}\n\n", t, rng.pick(&names[..]), rng.pick(&names[..])).as_bytes());
+                    }
+                }
+                _ => {
+                    let n = rng.range(0, 60);
+                    let pool: &[u8] = b"ab: \\\n\n  \t\r$%#*|/..\xc3\xa9out hdr.h gone";
+                    d = (0..n).map(|_| *rng.pick(pool)).collect();
+                }
+            }
+            depfile = Some(d);
+            expect_error = false;
+            what = "depfile";
+        }
     }
     std::fs::write(dir.join("build.ninja"), &manifest).unwrap();
-    let out = run_real(env, &w, &inv);
+    if let Some(d) = &depfile {
+        std::fs::write(dir.join("dep.src"), d).unwrap();
+    }
+    let mut out = run_real(env, &w, &inv);
+    if depfile.is_some() && out.exit == Some(0) && !out.timed_out {
+        // what was recorded is loaded (and the step judged) by the next invocation
+        rep.evaluations += 1;
+        out = run_real(env, &w, &inv);
+    }
     rep.evaluations += 1;
     rep.count(&format!("process_{}", what), 1);
     let so = String::from_utf8_lossy(&out.stdout).into_owned();
-    let mk = || J::obj().with("case", J::i(case)).with("kind", J::s(what)).with("manifest", J::bytes(&manifest)).with("targets", J::strs(inv.targets.iter().cloned())).with("trace", out.trace_json()).with("stderr", J::bytes(&out.stderr[..out.stderr.len().min(600)]));
+    let mk = || J::obj().with("case", J::i(case)).with("kind", J::s(what)).with("manifest", J::bytes(&manifest)).with("depfile", depfile.as_ref().map(|d| J::bytes(d)).unwrap_or(J::Null)).with("targets", J::strs(inv.targets.iter().cloned())).with("trace", out.trace_json()).with("stderr", J::bytes(&out.stderr[..out.stderr.len().min(600)]));
     if let Some(tool) = sanitizer_report(&out) {
         rep.violation(&format!("sanitizer-report:{}", tool), &String::from_utf8_lossy(&out.stderr).chars().take(1500).collect::<String>(), mk());
         return;
